@@ -140,3 +140,111 @@ Example C11_nonvacuous :
   find_pbest_id [1; 4; 9; 3] (1 # 2) = [2; 1]%nat.
 Proof. vm_compute. auto. Qed.
 Print Assumptions C11_nonvacuous.
+
+(* ------------------------------------------------------------------------------------------------
+   THE TIE TO THE SOURCE.  gen/GenCode.v is regenerated on every run from the bodies of the functions in
+   utils/__init__.py, utils/random.py and utils/selections.py (harness/translate_code.py; semantics of the
+   subset: theories/Py.v).  The models the theorems above are about are EQUAL to those generated
+   definitions, for every input and every list of draws; the headline theorems are restated about the
+   generated definitions themselves (the src_ theorems). *)
+From Coq Require Import String.
+From TF Require Import Py CodeEqC11.
+From TFG Require Import GenCode.
+Open Scope Z_scope.
+
+Theorem C11_code_check_for_value : forall v arr (k : nat), (k <= length arr)%nat ->
+  py_check_for_value v arr (Z.of_nat k) = memZ v (firstn k arr).
+Proof. exact code_check_for_value. Qed.
+Print Assumptions C11_code_check_for_value.
+
+Theorem C11_code_random_sample : forall n (q : nat) replace ds, replace = true \/ Z.of_nat q <= n ->
+  py_random_sample n (Z.of_nat q) replace ds = random_sample n q replace ds.
+Proof. exact code_random_sample. Qed.
+Print Assumptions C11_code_random_sample.
+
+Theorem C11_code_binary_search_interval : forall v c ds, c <> [] ->
+  py_binary_search_interval v c ds = Some (Z.of_nat (bsi v c), ds).
+Proof. exact code_binary_search_interval. Qed.
+Print Assumptions C11_code_binary_search_interval.
+
+Theorem C11_code_random_weighted_sample : forall w (q : nat) replace ds,
+  w <> [] -> replace = true \/ (q <= length w)%nat ->
+  py_random_weighted_sample w (Z.of_nat q) replace ds = random_weighted_sample w q replace ds.
+Proof. exact code_random_weighted_sample. Qed.
+Print Assumptions C11_code_random_weighted_sample.
+
+Theorem C11_code_flip_coin : forall p ds, py_flip_coin p ds = flip_coin p ds.
+Proof. exact code_flip_coin. Qed.
+Print Assumptions C11_code_flip_coin.
+
+Theorem C11_code_randint : forall low high (k : nat) ds, py_randint low high (Z.of_nat k) ds = randint low high k ds.
+Proof. exact code_randint. Qed.
+Print Assumptions C11_code_randint.
+
+Theorem C11_code_proportional_selection : forall fitness rank tour (q : nat) ds, fitness <> [] ->
+  py_proportional_selection fitness rank tour (Z.of_nat q) ds = proportional_selection fitness rank (Z.to_nat tour) q ds.
+Proof. exact code_proportional_selection. Qed.
+Print Assumptions C11_code_proportional_selection.
+
+Theorem C11_code_rank_selection : forall fitness rank tour (q : nat) ds, rank <> [] ->
+  py_rank_selection fitness rank tour (Z.of_nat q) ds = rank_selection fitness rank (Z.to_nat tour) q ds.
+Proof. exact code_rank_selection. Qed.
+Print Assumptions C11_code_rank_selection.
+
+Theorem C11_code_tournament_selection : forall fitness rank (tour q : nat) ds,
+  valid_draws ds -> (tour <= length fitness)%nat ->
+  py_tournament_selection fitness rank (Z.of_nat tour) (Z.of_nat q) ds = tournament_selection fitness tour q ds.
+Proof. exact code_tournament_selection. Qed.
+Print Assumptions C11_code_tournament_selection.
+
+Theorem C11_code_sattolo_shuffle : forall arr ds, valid_draws ds -> py_sattolo_shuffle arr ds = sattolo 0 arr ds.
+Proof. exact code_sattolo_shuffle. Qed.
+Print Assumptions C11_code_sattolo_shuffle.
+
+Theorem C11_code_argsort_k : forall a (k : nat), py_argsort_k a (Z.of_nat k) = map Z.of_nat (argsort_k a k).
+Proof. exact code_argsort_k. Qed.
+Print Assumptions C11_code_argsort_k.
+
+Theorem C11_code_find_pbest_id : forall a p, py_find_pbest_id a p = map Z.of_nat (find_pbest_id a p).
+Proof. exact code_find_pbest_id. Qed.
+Print Assumptions C11_code_find_pbest_id.
+
+(* headline statements about the generated definitions themselves *)
+Theorem C11_src_tournament_selection : forall fitness rank (tour q : nat) ds ws ds',
+  valid_draws ds -> (0 < tour <= length fitness)%nat ->
+  py_tournament_selection fitness rank (Z.of_nat tour) (Z.of_nat q) ds = Some (ws, ds') ->
+  length ws = q /\
+  Forall (fun w => 0 <= w < Z.of_nat (length fitness) /\ (tour <= count_le fitness w)%nat) ws.
+Proof. exact src_tournament_selection. Qed.
+Print Assumptions C11_src_tournament_selection.
+
+Theorem C11_src_random_sample : forall n (q : nat) replace ds r ds',
+  valid_draws ds -> replace = true \/ Z.of_nat q <= n ->
+  py_random_sample n (Z.of_nat q) replace ds = Some (r, ds') ->
+  length r = q /\ Forall (fun v => 0 <= v < n) r /\ (replace = false -> NoDup r).
+Proof. exact src_random_sample. Qed.
+Print Assumptions C11_src_random_sample.
+
+Theorem C11_src_weighted_selection : forall w (q : nat) ds r ds', w <> [] ->
+  py_random_weighted_sample w (Z.of_nat q) true ds = Some (r, ds') ->
+  length r = q /\ Forall (fun v => 0 <= v < Z.of_nat (length w)) r.
+Proof. exact src_weighted_selection. Qed.
+Print Assumptions C11_src_weighted_selection.
+
+Theorem C11_src_sattolo_permutation : forall arr ds r ds',
+  valid_draws ds -> py_sattolo_shuffle arr ds = Some (r, ds') -> Permutation arr r.
+Proof. exact src_sattolo_permutation. Qed.
+Print Assumptions C11_src_sattolo_permutation.
+
+Theorem C11_src_interval : forall v c ds, c <> [] -> sorted c ->
+  exists i, py_binary_search_interval v c ds = Some (Z.of_nat i, ds) /\
+    (forall j, (j < i)%nat -> (nth j c 0 < v)%Q) /\ ((v <= nth i c 0)%Q \/ i = (length c - 1)%nat).
+Proof. exact src_interval. Qed.
+Print Assumptions C11_src_interval.
+
+(* every translated function is free of writes into its parameters (the translator rejects such a store) *)
+Theorem C11_no_param_writes : forall f, In f ["check_for_value"; "argsort_k"; "find_pbest_id"; "binary_search_interval";
+    "sattolo_shuffle"; "random_weighted_sample"; "random_sample"; "randint";
+    "proportional_selection"; "rank_selection"; "tournament_selection"]%string -> In f no_param_writes.
+Proof. intros f H. repeat (destruct H as [<-|H]; [vm_compute; tauto|]). destruct H. Qed.
+Print Assumptions C11_no_param_writes.
